@@ -58,14 +58,23 @@ def run(ctx):
     heavy = [b for b in beh if any(s["pages"] * b["scale"] > 2048 for s in b["hist"]) or
              (b["cfg"]["capFromMax"] and b["accepted"] and (b["cfg"]["max"] < 0 or b["cfg"]["max"] * b["scale"] > 2048)
               and min(b["cfg"]["limit"], b["topu"]) * b["scale"] > 2048)]
+    heavy_ids = set(id(b) for b in heavy)
+    zero_limit = [b for b in beh if b["cfg"]["limit"] == 0 and id(b) not in heavy_ids]
+    for b in zero_limit:        # nothing may be allocated under a limit of zero pages: if something is, it must not be 4 GiB of
+        b["heavy"] = True       # real memory (guard-page allocator only); always replayed
     for b in heavy:
         b["heavy"] = True
     nheavy = 150 if q else 3000
     keep_heavy = set(id(b) for b in rnd.sample(heavy, min(nheavy, len(heavy))))
+    # the boundary at 4 GiB is enumerated, not sampled: every single edge access on a memory that starts at the top size
+    for b in heavy:
+        if len(b["hist"]) == 1 and b["hist"][0]["op"]["op"] in ("hedge", "gedge") and b["hist"][0]["pages"] * b["scale"] == 65536:
+            keep_heavy.add(id(b))
     for b in rnd.sample(heavy, min(len(heavy), 12 if q else 100)):
         if id(b) in keep_heavy:
             b["heavydef"] = True
     total = len(beh)
+    keep_heavy |= set(id(b) for b in zero_limit)
     beh = [b for b in beh if not b.get("heavy") or id(b) in keep_heavy]
     ctx.extra["heavy_behaviours"] = {"enumerated": len(heavy), "replayed": len([b for b in beh if b.get("heavy")])}
     ctx.extra["enumerated_total"] = total
